@@ -404,7 +404,13 @@ func checkC07(c *Ctx) {
 		}
 		cliCheck(c, cli, "format() options")
 	}
+	allLen := 5
+	if !c.Quick() {
+		allLen = 6
+	}
+	allStates := formatAll(c, allLen)
 	bad, states, ok := runPairCases(c, "FormatCases", "fmtcases.ndjson", recs)
+	states += allStates
 	if !ok {
 		return
 	}
@@ -431,4 +437,87 @@ func safeFormat(fc *parser.FontConfig, text string, max, ov int, font string, nl
 		}
 	}()
 	return fc.FormatText(text, max, ov, font, nl)
+}
+
+// formatAll: the real FormatText on EVERY character string of length <= n over
+// { a blank \ n p N { } } under two parameter sets each, against FormatLex!Formatted.  A difference on
+// a string whose reading the property fixes (FormatLex!WellFormed) is a violation; elsewhere it is
+// reported as a note (the tokeniser model describes the implementation there).
+var fmtAllAlphabet = []string{"a", " ", "\\", "n", "p", "N", "{", "}"}
+
+func formatAll(c *Ctx, maxLen int) int64 {
+	fam, ok := cachedGenModule(c, "GenChars", map[string]int{"MaxLen": maxLen, "NSym": len(fmtAllAlphabet)}, "chars.ndjson")
+	if !ok {
+		return 0
+	}
+	fc := parser.FontConfig{DefaultFontID: "F", Fonts: map[string]parser.Fonts{"F": {Widths: map[string]int{" ": 1, "default": 1}}}}
+	type pset struct{ max, ov, nl int }
+	var grid []pset
+	for _, m := range []int{2, 3, 5} {
+		for _, o := range []int{0, 1} {
+			for _, n := range []int{1, 2, 3} {
+				grid = append(grid, pset{m, o, n})
+			}
+		}
+	}
+	var nd NDJSON
+	desc := map[string]string{}
+	inBatch, nviol, ndrift, ncases := 0, 0, 0, 0
+	var states int64
+	failed := false
+	flush := func() {
+		if inBatch == 0 || failed {
+			return
+		}
+		res, err := RunTLC("formatall", TLCJob{Module: "FormatAll", Cfg: "FormatAll.cfg", Data: map[string][]byte{"formatall.ndjson": nd.Bytes()},
+			Workers: c.Workers, Timeout: 30 * time.Minute, HeapGB: 10})
+		if err != nil || !res.Clean() {
+			c.Fatal("FormatAll run failed: %v\n%s", err, tail(res.Output, 3000))
+			failed = true
+			return
+		}
+		for _, m := range reCaseFlag.FindAllStringSubmatch(res.Output, -1) {
+			if strings.Contains(m[4], "violation") {
+				nviol++
+				if nviol <= 5 {
+					c.Violate(Violation{What: "format() of a well-formed text differs from the text-box filler of FormatStep.tla on the words FormatLex.tla reads: " + desc[m[3]] +
+						" expected " + strings.Join(strings.Fields(m[4]), " ")})
+				}
+			} else {
+				ndrift++
+				if ndrift <= 3 {
+					fmt.Printf("note: FormatText differs from the tokeniser model on a text outside the property's vocabulary: %s\n", desc[m[3]])
+				}
+			}
+		}
+		states += res.Distinct
+		nd = NDJSON{}
+		inBatch = 0
+	}
+	for i, ln := range fam["chars.ndjson"] {
+		var w []int
+		if jsonUnmarshal([]byte(ln), &w) != nil {
+			continue
+		}
+		chars := make([]string, len(w))
+		for k, x := range w {
+			chars[k] = fmtAllAlphabet[x-1]
+		}
+		text := strings.Join(chars, "")
+		for k, p := range []pset{grid[i%len(grid)], grid[(i*7+5)%len(grid)]} {
+			out, err := safeFormat(&fc, text, p.max, p.ov, "F", p.nl)
+			id := fmt.Sprintf("a%d.%d", i, k)
+			desc[id] = fmt.Sprintf("FormatText(%q, max=%d, overlap=%d, every character and code 1 px, numLines=%d) = %q err=%v", text, p.max, p.ov, p.nl, out, err)
+			nd.Add(map[string]interface{}{"id": id, "chars": chars, "P": map[string]int{"max": p.max, "ov": p.ov, "nl": p.nl, "sp": 1}, "out": out, "err": err != nil})
+			ncases++
+			inBatch++
+		}
+		if inBatch >= 100000 {
+			flush()
+		}
+	}
+	flush()
+	c.Cov("format_all_strings_cases", int64(ncases))
+	c.Cov("format_all_notes_outside_vocabulary", int64(ndrift))
+	return states
 }
